@@ -1306,7 +1306,9 @@ Token *preprocess(Token *tok) {
   convert_pp_tokens(tok);
   join_adjacent_string_literals(tok);
 
-  for (Token *t = tok; t; t = t->next)
-    t->line_no += t->line_delta;
+  // Token::line_no stays the physical line number: diagnostics and
+  // .loc/.file name the physical file (and diagnostics echo its text),
+  // so adding the #line delta here would pair a presumed line with a
+  // physical file. __LINE__ and __FILE__ apply #line by themselves.
   return tok;
 }
